@@ -1,7 +1,7 @@
 ---- MODULE MCBuffer ----
 (* Closed model for C16: one first object (a VectorisedView over any chunking of
    <= MaxLen position-distinct bytes into <= MaxChunks chunks, empty chunks
-   included, or a Prependable with <= MaxRes bytes of room) and then EVERY
+   included, or a View of <= MaxLen bytes, or a Prependable with <= MaxRes bytes of room) and then EVERY
    operation sequence on it and on the objects derived from it (<= MaxObj
    objects), with every count from -1 (0 for View, whose contract forbids
    negative counts) to size+1.  Every operation either shrinks something or uses
@@ -18,6 +18,7 @@ Counts == -1..(MaxLen + 1)
 PCounts == 0..(MaxRes + 1)
 MCNext ==
     \/ \E lens \in Chunkings : NewVV(lens)
+    \/ \E n \in 0..MaxLen : NewView(n)
     \/ \E r \in 0..MaxRes : NewPrep(r)
     \/ \E o \in 1..MaxObj :
          \/ \E n \in Counts : VTrim(o, n) \/ VCap(o, n) \/ WTrim(o, n) \/ WCap(o, n)
